@@ -75,6 +75,8 @@ FULL = [
     {"op": "target_slide", "to": None},
     {"op": "remove_layout", "in_use": False},
     {"op": "remove_layout", "in_use": True},
+    {"op": "remove_layout_cross"},                 # enabled on decks with several masters: documented ValueError
+    {"op": "add_movie", "name": "CLIP.MP4"},       # media part named after the file: upper-case extension
     {"op": "core_props"},
     {"op": "core_props", "set": "T&<t>"},
     {"op": "bad_index"},
@@ -109,7 +111,18 @@ SUB = [
 CORPUS_INIT = "corpus:features/steps/test_files/test.pptx"
 NOCORE_INIT = "corpus:tests/test_files/no-core-props.pptx"   # gains a default core-properties part on first access
 HANDOUT_INIT = "corpus:features/steps/test_files/mst-slide-layouts.pptx"   # handout master -> its own theme part
-INITS = ["default", "out_of_order", "non_contiguous", CORPUS_INIT, "rich", "names_1_5_3", HANDOUT_INIT, NOCORE_INIT]
+MASTERS_INIT = "corpus:features/steps/test_files/prs-slide-masters.pptx"   # two slide masters
+INITS = ["default", "out_of_order", "non_contiguous", CORPUS_INIT, "rich", "names_1_5_3", HANDOUT_INIT, NOCORE_INIT,
+         MASTERS_INIT]
+
+# one file-like object re-used for every save of a history (growing and shrinking packages)
+STREAM = [
+    {"op": "save_stream"},
+    {"op": "save_stream", "reopen": True},
+    {"op": "add_slide", "layout": 6},
+    {"op": "add_picture", "img": "A", "via": "stream"},
+    {"op": "remove_layout", "in_use": False},
+]
 
 # content types the standard assigns to the kinds of part the alphabet creates, by part-name pattern
 CT = "application/vnd.openxmlformats-officedocument."
@@ -123,7 +136,7 @@ CREATED_TYPES = [
     (re.compile(r"^/ppt/embeddings/oleObject\d+\.bin$"), None),  # several legal types; not pinned here
     (re.compile(r"^/ppt/media/image\d+\.png$"), "image/png"),
     (re.compile(r"^/ppt/media/image\d+\.(jpg|jpeg)$"), "image/jpeg"),
-    (re.compile(r"^/ppt/media/media\d+\.mp4$"), "video/mp4"),
+    (re.compile(r"^/ppt/media/media\d+\.(?i:mp4)$"), "video/mp4"),
     (re.compile(r"^/docProps/core\.xml$"), "application/vnd.openxmlformats-package.core-properties+xml"),
 ]
 
@@ -152,7 +165,8 @@ class System:
     def canon(self, live):
         flags = state.cache_flags(live.prs.part.package)
         live._final_save = F.save_bytes(live.prs)
-        return (state.package_digest(live._final_save), flags, len(live.saves))
+        st = getattr(live, "stream", None)
+        return (state.package_digest(live._final_save), flags, len(live.saves), None if st is None else len(st.getvalue()))
 
     def check(self, live, init, hist, part):
         check_state(live, init, hist, part)
@@ -262,8 +276,13 @@ def _alphabet_sub(level):
     return SUB
 
 
+def _alphabet_stream(level):
+    return STREAM
+
+
 def run(ctx):
-    ctx.extra["alphabet"] = {"full": [_opsig([o]) for o in FULL], "sub": [_opsig([o]) for o in SUB]}
+    ctx.extra["alphabet"] = {"full": [_opsig([o]) for o in FULL], "sub": [_opsig([o]) for o in SUB],
+                             "reused-stream": [_opsig([o]) for o in STREAM]}
     gen = [i for i in INITS if not i.startswith("corpus:")]
     cor = [i for i in INITS if i.startswith("corpus:")]
     irregular = ["out_of_order", "non_contiguous", "names_1_5_3"]
@@ -272,12 +291,14 @@ def run(ctx):
         explorer.explore(ctx, System(irregular + cor, _alphabet_full), 2, name="full-alphabet/depth2")
         explorer.explore(ctx, System(irregular + [NOCORE_INIT], _alphabet_sub), 4, name="cache-sensitive-subalphabet")
         explorer.explore(ctx, System(["default", "rich"], _alphabet_sub), 3, name="cache-sensitive-subalphabet/other-decks")
+        explorer.explore(ctx, System(["default", "two_slides"], _alphabet_stream), 5, name="reused-stream")
     else:
         explorer.explore(ctx, System(gen, _alphabet_full), 2, name="full-alphabet")
         explorer.explore(ctx, System(cor, _alphabet_full), 1, name="full-alphabet/corpus-decks")
         explorer.explore(ctx, System(["out_of_order", "non_contiguous", "names_1_5_3", NOCORE_INIT], _alphabet_sub), 3,
                          name="cache-sensitive-subalphabet")
         explorer.explore(ctx, System(["default", "rich"], _alphabet_sub), 2, name="cache-sensitive-subalphabet/other-decks")
+        explorer.explore(ctx, System(["default"], _alphabet_stream), 4, name="reused-stream")
     single = [op for op, s in ctx.outcomes.items() if len(s) == 0]
     if single:
         from mc.core.run import HarnessError
